@@ -398,6 +398,28 @@ def r4_run_layer(ctx, rep, R='C01.R4'):
               'run_tests is reachable from an exception handler of setup_layer',
               key='run-after-failed-setup', func=fi.qualname, where=ctx.where(fi, scall),
               path=g.describe_path(g.path(exc_succ, X[0], include_start=True) or []))
+    # CanNotTearDown is the signal "no further test or set-up in this process": it must leave
+    # run_layer (Runner.run_tests turns it into the resume); a handler on the way that completes
+    # normally swallows it and the next layer is set up in a process that cannot be trusted
+    tok = T_exact('CanNotTearDown')
+    outs = [d for d, k in g.succ[U[0]] if k == 'exc' and tok in g.exc_toks.get((U[0], d), ())]
+    swallowed = None
+    for d in outs:
+        if d == g.raise_exit:
+            continue
+        r = g.reach([d], include_start=True, edge_ok=lambda s_, d_, k_: not (
+            k_ == 'exc' and d_ == g.raise_exit))
+        if g.exit in r:
+            swallowed = d
+    rep.check(bool(outs) and swallowed is None, R,
+              'CanNotTearDown raised by tear_down_unneeded leaves run_layer',
+              'CanNotTearDown raised by tear_down_unneeded is caught inside run_layer by "%s" and the '
+              'function completes normally: the run goes on setting up layers in a process where a '
+              'layer could not be torn down' % (g.node(swallowed).text()[:60] if swallowed is not None
+                                                 else '?'),
+              key='run_layer:cannot-tear-down-swallowed', func=fi.qualname, where=ctx.where(fi, ucall),
+              path=g.describe_path(g.path([swallowed], g.exit, include_start=True) or [])
+              if swallowed is not None else None)
     rep.floor(R, 4, 4, 'call sites')
 
 
